@@ -303,7 +303,8 @@ double tdigest<T, A>::weighted_average(double x1, double w1, double x2, double w
 
 template<typename T, typename A>
 void tdigest<T, A>::serialize(std::ostream& os, bool with_buffer) const {
-  if (!with_buffer) const_cast<tdigest*>(this)->compress(); // side effect
+  // the single value image cannot say that the value is still buffered: it is always restored as a centroid
+  if (!with_buffer || is_single_value()) const_cast<tdigest*>(this)->compress(); // side effect
   write(os, get_preamble_longs());
   write(os, SERIAL_VERSION);
   write(os, SKETCH_TYPE);
@@ -347,7 +348,8 @@ size_t tdigest<T, A>::get_serialized_size_bytes(bool with_buffer) const {
 
 template<typename T, typename A>
 auto tdigest<T, A>::serialize(unsigned header_size_bytes, bool with_buffer) const -> vector_bytes {
-  if (!with_buffer) const_cast<tdigest*>(this)->compress(); // side effect
+  // the single value image cannot say that the value is still buffered: it is always restored as a centroid
+  if (!with_buffer || is_single_value()) const_cast<tdigest*>(this)->compress(); // side effect
   vector_bytes bytes(header_size_bytes + get_serialized_size_bytes(with_buffer), 0, buffer_.get_allocator());
   uint8_t* ptr = bytes.data() + header_size_bytes;
   *ptr++ = get_preamble_longs();
